@@ -5,6 +5,7 @@
 import XonshVerif.Model.Wire
 import XonshVerif.Model.Macro
 import XonshVerif.Model.WithMacro
+import XonshVerif.Model.Span
 import XonshVerif.Model.Helpers
 import XonshVerif.Model.Pipeline
 import XonshVerif.Model.Lines
@@ -39,6 +40,12 @@ def handleWithMacro (fs : List String) : String :=
   let getLine (n : Nat) : List Nat := ((table.find? (·.1 = n)).map (·.2)).getD []
   let (str, n, c) := WithMacro.consumeWithMacro getLine toks
   s!"param|{encStr str}|consumed={n}|cleared={c}"
+
+/-- `span <index> <type>*` : `get_last_non_whitespace_token` on the fetched tokens -> index of the token it returns -/
+def handleSpan (fs : List String) : String :=
+  match fs with
+  | idx :: tys => toString (Span.lastNonWs (tys.map TT.ofString).toArray (nat idx))
+  | _ => "bad-request"
 
 /-- `macro <spacechars> tok*` -/
 def handleMacro (fs : List String) : String :=
